@@ -176,7 +176,7 @@ def in_scale(args):
     return max(vals + [1e-300])
 
 
-def agrees(impl, model, scale, rel):
+def agrees(impl, model, scale, rel, flips=0):
     """tolerance: |impl - model| <= rel * max(|impl|,|model|,input scale).  The exact model differs from
     the code by the rounding of j = k/200, 1-j, the divisions and the final add; near j -> 1 the
     cancellation in 1-j costs ~1e-14 relative, hence rel = 1e-11 (rational formulas) / 1e-8 (recurrence)."""
@@ -189,11 +189,21 @@ def agrees(impl, model, scale, rel):
     if len(impl[1]) != len(model[1]) or len(impl[2]) != len(model[2]):
         return False
     for xs, ys in ((impl[1], model[1]), (impl[2], model[2])):
-        for x, y in zip(xs, ys):
+        used = 0
+        for k, (x, y) in enumerate(zip(xs, ys)):
             if math.isnan(x) or math.isinf(x):
                 return False
             yf = float(y)
             if abs(x - yf) > rel * max(abs(x), abs(yf), scale):
+                # the quantile of the extremal law jumps at a level that may coincide with a step level k/200; which side
+                # of the jump such a step falls is decided by rounding.  At most `flips` steps per bound may take the
+                # value of a neighbouring step of the model instead.
+                lo = float(ys[k - 1]) if k > 0 else yf
+                hi = float(ys[k + 1]) if k + 1 < len(ys) else yf
+                t = rel * max(abs(x), abs(lo), abs(hi), scale)
+                if used < flips and min(lo, yf) - t <= x <= max(hi, yf) + t:
+                    used += 1
+                    continue
                 return False
     return True
 
@@ -223,6 +233,11 @@ def mix(laws, ws):
     return discrete([(x, w * wl) for at, wl in zip(laws, ws) for x, w in at])
 
 
+# rounding is not modelled: the step levels k/200 are themselves binary64 values, so a level counts as strictly
+# inside a step only if it is at least EPS_P away from both ends (same spirit as the 1e-9 tolerance on values)
+EPS_P = F(1, 10 ** 12)
+
+
 def check_discrete(at, L, R, exL, exR, tol):
     """every quantile of the discrete law `at` at a level strictly inside a step lies in [L[k], R[k]].
     Atom j occupies the levels (c_{j-1}, c_j): it meets the open steps floor(200 c_{j-1}) .. ceil(200 c_j)-1.
@@ -231,8 +246,10 @@ def check_discrete(at, L, R, exL, exR, tol):
     c = F(0)
     for x, w in at:
         c0, c = c, c + w
-        kf = math.floor(N * c0)
-        kl = math.ceil(N * c) - 1
+        if w <= 2 * EPS_P:
+            continue
+        kf = math.floor(N * (c0 + EPS_P))
+        kl = math.ceil(N * (c - EPS_P)) - 1
         kf, kl = min(max(kf, 0), N - 1), min(max(kl, 0), N - 1)
         if not (exR and kf == N - 1):
             if x > R[kf] + tol(R[kf]):
@@ -340,25 +357,34 @@ def laws_min_mean(rng, m, mu, n):
     return out
 
 
-def laws_mean_std(rng, mu, sd, n):
-    if sd == 0:
+def two_point(mu, V, al):
+    """the two-point law with mean mu and variance V whose lower atom is mu - al (al > 0 rational): no square root needed"""
+    be = V / al
+    return discrete([(mu - al, be / (al + be)), (mu + be, al / (al + be))])
+
+
+def alpha_for_level(V, p):
+    """rationals just below / above sqrt(V(1/p-1)): the two-point laws whose P(low) lands just above / below p"""
+    t0 = F(math.sqrt(float(V * (1 / p - 1))))
+    return [t0 * (1 - F(1, 10 ** 9)), t0 * (1 + F(1, 10 ** 9))]
+
+
+def laws_mean_std(rng, mu, V, n):
+    if V == 0:
         return [("point", [(mu, F(1))])]
     base = []
+    s0 = F(math.sqrt(float(V)))
 
-    def two(t):
-        return discrete([(mu - sd * t, 1 / (1 + t * t)), (mu + sd / t, t * t / (1 + t * t))])
-
-    def three(t):  # Chebyshev extremal, t >= 1
-        return discrete([(mu - sd * t, 1 / (2 * t * t)), (mu, 1 - 1 / (t * t)), (mu + sd * t, 1 / (2 * t * t))])
+    def three(c):  # Chebyshev extremal, c*c >= V
+        return discrete([(mu - c, V / (2 * c * c)), (mu, 1 - V / (c * c)), (mu + c, V / (2 * c * c))])
     for p in near_levels(rng, max(6, n // 2)) + [F(k, N) for k in (1, 2, 100, 198, 199)]:
-        # t ~ sqrt(1/p - 1) from both sides so that P(low) lands on either side of the level p
-        t0 = F(math.sqrt(float(1 / p - 1)))
-        for t in (t0 * (1 - F(1, 10 ** 9)), t0 * (1 + F(1, 10 ** 9))):
-            if t > 0:
-                base.append(("cantelli-two-point", two(t)))
+        for al in alpha_for_level(V, p):
+            if al > 0:
+                base.append(("cantelli-two-point", two_point(mu, V, al)))
     for _ in range(n):
-        base.append(("cantelli-two-point", two(F(rng.randint(1, 400), rng.randint(1, 40)))))
-        base.append(("chebyshev-three-point", three(1 + F(rng.randint(0, 300), rng.randint(1, 30)))))
+        base.append(("cantelli-two-point", two_point(mu, V, s0 * F(rng.randint(1, 400), rng.randint(1, 40)))))
+        c = s0 * (1 + F(rng.randint(1, 300), rng.randint(1, 30)))
+        base.append(("chebyshev-three-point", three(c)))
     out = list(base)
     for _ in range(n):
         k = rng.randint(2, 3)
@@ -425,29 +451,24 @@ def three_point_weights(xs, mu, V):
     return None
 
 
-def laws_mmms(rng, a, b, mu, sd, n):
-    V = sd * sd
+def laws_mmms(rng, a, b, mu, V, n):
     vmax = (mu - a) * (b - mu)
     if V > vmax:
         return []
-    if sd == 0:
+    if V == 0:
         return [("point", [(mu, F(1))])]
     if V == vmax:
         return [("two-point-ends", discrete([(a, (b - mu) / (b - a)), (b, (mu - a) / (b - a))]))]
     base = []
-    tlo, thi = sd / (b - mu), (mu - a) / sd      # two-point law (mu - sd t, mu + sd/t) fits the range iff tlo <= t <= thi
-
-    def two(t):
-        return discrete([(mu - sd * t, 1 / (1 + t * t)), (mu + sd / t, t * t / (1 + t * t))])
-    base.append(("two-point-touching-max", two(tlo)))
-    base.append(("two-point-touching-min", two(thi)))
+    alo, ahi = V / (b - mu), mu - a      # the two-point law (mu - al, mu + V/al) fits the range iff alo <= al <= ahi
+    base.append(("two-point-touching-max", two_point(mu, V, alo)))
+    base.append(("two-point-touching-min", two_point(mu, V, ahi)))
     for _ in range(n):
-        base.append(("two-point", two(rfrac(rng, tlo, thi))))
+        base.append(("two-point", two_point(mu, V, rfrac(rng, alo, ahi))))
     for p in near_levels(rng, max(6, n // 2)):
-        t0 = F(math.sqrt(float(1 / p - 1)))
-        for t in (t0 * (1 - F(1, 10 ** 9)), t0 * (1 + F(1, 10 ** 9))):
-            if tlo <= t <= thi:
-                base.append(("cantelli-two-point", two(t)))
+        for al in alpha_for_level(V, p):
+            if alo <= al <= ahi:
+                base.append(("cantelli-two-point", two_point(mu, V, al)))
     for _ in range(2 * n):
         kind = rng.random()
         if kind < 0.5:
@@ -549,12 +570,11 @@ def oracle(ctx, fn, A, impl, nlaws, rng, call, feats):
     tol = lambda bound: F(1, 10 ** 9) * max(scale, abs(bound))
     exL, exR = exempt(fn)
     g = A.get
-    sd = None
-    if fn in ("mean_var", "min_max_mean_var"):
-        # the constraint is the variance; laws are built with a rational std whose square is within 1e-12 of it
-        sd = fr_sqrt_bounds(g("var"))[0]
+    V = None      # the variance every law must have exactly (no square root is taken: laws are parametrised by V)
+    if "var" in A:
+        V = g("var")
     elif "std" in A:
-        sd = g("std")
+        V = g("std") ** 2
     if fn == "min_max":
         laws = laws_support(rng, g("minimum"), g("maximum"), nlaws)
     elif fn == "min_mean":
@@ -562,7 +582,7 @@ def oracle(ctx, fn, A, impl, nlaws, rng, call, feats):
     elif fn == "max_mean":
         laws = [(lab, discrete([(-x, w) for x, w in at])) for lab, at in laws_min_mean(rng, -g("maximum"), -g("mean"), nlaws)]
     elif fn in ("mean_std", "mean_var"):
-        laws = laws_mean_std(rng, g("mean"), sd, nlaws)
+        laws = laws_mean_std(rng, g("mean"), V, nlaws)
     elif fn == "min_max_mean":
         laws = laws_min_max_mean(rng, g("minimum"), g("maximum"), g("mean"), nlaws)
     elif fn == "min_max_median":
@@ -570,7 +590,7 @@ def oracle(ctx, fn, A, impl, nlaws, rng, call, feats):
     elif fn == "min_max_mode":
         laws = laws_mode(rng, g("minimum"), g("maximum"), g("mode"), max(3, nlaws // 3))
     else:
-        laws = laws_mmms(rng, g("minimum"), g("maximum"), g("mean"), sd, nlaws)
+        laws = laws_mmms(rng, g("minimum"), g("maximum"), g("mean"), V, nlaws)
     ctx.bump("laws", len(laws))
     envs = []
     for lab, law in laws:
@@ -595,27 +615,31 @@ def oracle(ctx, fn, A, impl, nlaws, rng, call, feats):
                      f"outside the {side} bound {float(bnd)!r}")
             return
     # non-vacuity: an extremal law comes within one probability step of each bound
-    bad = tightness(fn, A, sd, L, R, tol)
+    bad = tightness(fn, A, V, L, R, tol)
     if bad:
         side, k, bnd, ref, what = bad
         ctx.fail(dict(feats, symptom="vacuous", side=side), dict(call, step=k, side=side, bound=float(bnd), reachable=float(ref)),
                  f"{call}: {side} bound of step {k} is {float(bnd)!r} but {what} only reaches {float(ref)!r} within one step")
 
 
-def tightness(fn, A, sd, L, R, tol):
-    """for every non-exempt step k: some admissible extremal law has a quantile, at a level inside step k or the
-    adjacent outward step, that reaches the bound.  The reachable value is computed from the explicit law."""
+def tightness(fn, A, V, L, R, tol):
+    """for every step k whose bound is finite by the mathematics: an admissible extremal law reaches the bound at
+    a level at most one probability step outside step k.  The reachable value is computed from the explicit law."""
     g = A.get
 
     def markov_up(m, mu, p):      # upper atom of {m w.p. p, . w.p. 1-p} with mean mu; it sits at the levels (p,1)
         return m + (mu - m) / (1 - p)
 
-    def cantelli_up(mu, s, p):    # upper atom of the two-point law with P(low) = p' >= p, p' ~ p  (rational t)
-        t = fr_sqrt_bounds(1 / p - 1)[0]
-        return mu + s / t if t > 0 else None
+    def cantelli_up(mu, V, p):    # upper atom of the two-point law (mean mu, variance V) with P(low) = p' >= p, p' ~ p
+        if V == 0:
+            return mu
+        al = fr_sqrt_bounds(V * (1 / p - 1))[0]
+        return mu + V / al
 
     for k in range(N):
-        jr, jl = F(k + 1, N), F(k, N)     # levels at the ends of step k
+        # "within one probability step": the extremal law may sit one step (1/200 in probability) outside step k,
+        # i.e. its atom reaches the bound at a level >= (k-1)/200 (left) resp. <= (k+2)/200 (right)
+        jr, jl = F(min(k + 2, N), N), F(max(k - 1, 0), N)
         reachR = reachL = None
         whatR = whatL = ""
         if fn == "min_max":
@@ -623,51 +647,50 @@ def tightness(fn, A, sd, L, R, tol):
         elif fn == "min_mean":
             m, mu = g("minimum"), g("mean")
             reachL, whatL = m, "the atom at the minimum"
-            if k < N - 1:
+            if jr < 1:
                 reachR, whatR = markov_up(m, mu, jr), "the Markov two-point law"
         elif fn == "max_mean":
             M, mu = g("maximum"), g("mean")
             reachR, whatR = M, "the atom at the maximum"
-            if k > 0:
+            if jl > 0:
                 reachL, whatL = -markov_up(-M, -mu, 1 - jl), "the Markov two-point law"
         elif fn in ("mean_std", "mean_var"):
             mu = g("mean")
-            if k < N - 1:
-                reachR, whatR = cantelli_up(mu, sd, jr), "the Cantelli two-point law"
-            if k > 0:
-                reachL, whatL = 2 * mu - cantelli_up(mu, sd, 1 - jl), "the Cantelli two-point law"
+            if jr < 1:
+                reachR, whatR = cantelli_up(mu, V, jr), "the Cantelli two-point law"
+            if jl > 0:
+                reachL, whatL = 2 * mu - cantelli_up(mu, V, 1 - jl), "the Cantelli two-point law"
         elif fn == "min_max_mean":
             a, b, mu = g("minimum"), g("maximum"), g("mean")
             if not (a < mu < b):
                 continue
-            mid = (b - mu) / (b - a)       # P(min) of the two-point law on {min,max}
-            # the law on {min,max} has min at the levels (0,mid) and max at (mid,1)
-            reachR = b if mid < F(min(k + 2, N), N) else markov_up(a, mu, jr)
-            reachL = a if mid > F(max(k - 1, 0), N) else b - (b - mu) / jl
+            mid = (b - mu) / (b - a)       # the law on {min,max} has min at the levels (0,mid) and max at (mid,1)
+            reachR = b if mid < jr or jr == 1 else markov_up(a, mu, jr)
+            reachL = a if mid > jl or jl == 0 else b - (b - mu) / jl
             whatR = whatL = "the range-mean two-point law"
         elif fn == "min_max_median":
             a, b, med = g("minimum"), g("maximum"), g("median")
-            reachR = med if k < N // 2 else b
-            reachL = a if k < N // 2 else med
+            reachR = med if jr < F(1, 2) else b
+            reachL = a if jl < F(1, 2) else med
             whatR = whatL = "the two-point law with half its mass at the median"
         elif fn == "min_max_mode":
             a, b, M = g("minimum"), g("maximum"), g("mode")
             reachR, reachL = M + jr * (b - M), a + jl * (M - a)
             whatR = whatL = "the uniform law between the mode and the end of the range"
         else:
-            # range+mean+dispersion: at least as tight as the range-mean and the Cantelli bounds of the same step
+            # range+mean+dispersion: at least as tight as the range-mean and the Cantelli bounds (one step out)
             a, b, mu = g("minimum"), g("maximum"), g("mean")
-            if not (a < mu < b) or sd == 0:
+            if not (a < mu < b) or V == 0:
                 continue
             cands = [b]
             if jr < 1:
                 cands.append(markov_up(a, mu, jr))
-                cands.append(mu + sd * fr_sqrt_bounds(jr / (1 - jr))[1])
+                cands.append(mu + fr_sqrt_bounds(V * jr / (1 - jr))[1])
             reachR, whatR = min(cands), "the tighter of the range-mean and Cantelli bounds"
             cands = [a]
             if jl > 0:
                 cands.append(b - (b - mu) / jl)
-                cands.append(mu - sd * fr_sqrt_bounds(1 / jl - 1)[1])
+                cands.append(mu - fr_sqrt_bounds(V * (1 / jl - 1))[1])
             reachL, whatL = max(cands), "the tighter of the range-mean and Cantelli bounds"
         if reachR is not None and R[k] > reachR + tol(R[k]):
             return ("right", k, R[k], reachR, whatR)
@@ -738,6 +761,7 @@ WITNESS = [
     ("min_max_mean_std", dict(minimum=0.0, maximum=2.0, mean=1.0, std=1.0)),       # maximal dispersion: two-point law on {min,max}
     ("min_max_mean_std", dict(minimum=0.0, maximum=5.0, mean=1.0, std=2.0)),
     ("min_max_mean_var", dict(minimum=0.0, maximum=2.0, mean=1.0, var=1.0)),
+    ("min_max_mean_var", dict(minimum=13.781366713368225, maximum=528.0824604076643, mean=525.5109549391927, var=1315.9154345013837)),  # KF-C10-var-sqrt-rounds-above-max
     ("min_max_mean_std", dict(minimum=0.0, maximum=2.0, mean=1.0, std=0.5)),
     ("min_max_mean_std", dict(minimum=0.0, maximum=2.0, mean=1.0, std=0.0)),
     ("min_max_mean_std", dict(minimum=0.0, maximum=2.0, mean=0.0, std=0.0)),
@@ -834,6 +858,7 @@ def feats_of(fn, A, stream, via):
             V = E["var"] if "var" in E else E["std"] ** 2
             vmax = (E["mean"] - E["minimum"]) * (E["maximum"] - E["mean"])
             f["dispersion_ratio"] = float(V / vmax) if vmax > 0 else (0.0 if V == 0 else 2.0)
+            f["dispersion_exactly_maximal"] = bool(V == vmax)
     except Exception:
         pass
     return f
@@ -859,8 +884,8 @@ def run(ctx: core.Check, cases=None):
         "modelled by its result [r0..r198,r198]",
         "arguments are Python int/float (numpy scalars would turn ZeroDivisionError into inf/nan); percentiles= is not modelled; "
         "parse_moments / truncate_parse_moments are observed only as routing targets",
-        "oracle tolerance 1e-9 relative to max(input scale, |bound|); 'unimodal' is represented by Khinchin mixtures of uniforms; "
-        "a variance constraint is met by laws whose std is a rational within 1e-12 of sqrt(var)",
+        "oracle tolerance 1e-9 relative to max(input scale, |bound|) on values and 1e-12 on probability levels (an atom must overlap a step by more than that); 'unimodal' is represented by Khinchin mixtures of uniforms; "
+        "laws meet mean and variance constraints exactly (two-point laws are parametrised by the lower atom, no square root)",
     ]
     ctx.lean_stage(["Pun.Props.C10"])
     if cases is None:
@@ -883,7 +908,7 @@ def run(ctx: core.Check, cases=None):
         impl = run_impl(fn, A, via)
         model = parse_model(rep)
         rel = 1e-8 if ctor.startswith("min_max_mean_") else 1e-11
-        if agrees(impl, model, in_scale(A), rel):
+        if agrees(impl, model, in_scale(A), rel, 1 if ctor.startswith("min_max_mean_") else 0):
             ctx.tie_ok()
         else:
             ctx.tie_bad(stream, {"fn": fn, "args": _ja(A), "via": via}, _ji(impl), _ji(model))
